@@ -1785,6 +1785,58 @@ func getExprName(context *funcContext, expr ast.Expr) string { // {{{
 	return "?"
 } // }}}
 
+// opMaxReg returns the highest register the instruction reads or writes (including the implicit
+// register ranges of the multi-register instructions), or -1 if it uses none.
+func opMaxReg(inst uint32) int { // {{{
+	op := opGetOpCode(inst)
+	a, b, c := opGetArgA(inst), opGetArgB(inst), opGetArgC(inst)
+	maxreg := -1
+	use := func(reg int) {
+		if reg > maxreg {
+			maxreg = reg
+		}
+	}
+	if prop := &opProps[op]; prop.Type == opTypeABC {
+		if prop.ModeArgB == opArgModeR || (prop.ModeArgB == opArgModeK && !opIsK(b)) {
+			use(b)
+		}
+		if prop.ModeArgC == opArgModeR || (prop.ModeArgC == opArgModeK && !opIsK(c)) {
+			use(c)
+		}
+	}
+	switch op {
+	case OP_JMP, OP_EQ, OP_LT, OP_LE, OP_CLOSE, OP_NOP:
+		/* A is not a register */
+	case OP_SELF:
+		use(a + 1)
+	case OP_CALL:
+		use(a)
+		use(a + b - 1)
+		use(a + c - 2)
+	case OP_TAILCALL:
+		use(a)
+		use(a + b - 1)
+	case OP_RETURN, OP_VARARG:
+		if b == 0 {
+			use(a)
+		} else if b > 1 {
+			use(a + b - 2)
+		}
+	case OP_FORLOOP:
+		use(a + 3)
+	case OP_FORPREP:
+		use(a + 2)
+	case OP_TFORLOOP:
+		use(a + 5) // the call R(A+3)(R(A+4), R(A+5)) is set up above the control variables
+		use(a + 2 + c)
+	case OP_SETLIST:
+		use(a + b)
+	default:
+		use(a)
+	}
+	return maxreg
+} // }}}
+
 func patchCode(context *funcContext) { // {{{
 	maxreg := 1
 	if np := int(context.Proto.NumParameters); np > 1 {
@@ -1795,31 +1847,23 @@ func patchCode(context *funcContext) { // {{{
 	for pc := 0; pc < len(code); pc++ {
 		inst := code[pc]
 		curop := opGetOpCode(inst)
+		if reg := opMaxReg(inst); reg > maxreg {
+			maxreg = reg
+		}
 		switch curop {
 		case OP_CLOSURE:
-			pc += int(context.Proto.FunctionPrototypes[opGetArgBx(inst)].NumUpvalues)
+			nupvalues := int(context.Proto.FunctionPrototypes[opGetArgBx(inst)].NumUpvalues)
+			for i := 1; i <= nupvalues; i++ {
+				// pseudo instructions: OP_MOVE 0 B captures the local R(B), OP_GETUPVAL 0 B an upvalue
+				if capture := code[pc+i]; opGetOpCode(capture) == OP_MOVE {
+					if reg := opGetArgB(capture); reg > maxreg {
+						maxreg = reg
+					}
+				}
+			}
+			pc += nupvalues
 			moven = 0
 			continue
-		case OP_SETGLOBAL, OP_SETUPVAL, OP_EQ, OP_LT, OP_LE, OP_TEST,
-			OP_TAILCALL, OP_RETURN, OP_FORPREP, OP_FORLOOP, OP_TFORLOOP,
-			OP_SETLIST, OP_CLOSE:
-			/* nothing to do */
-		case OP_CALL:
-			if reg := opGetArgA(inst) + opGetArgC(inst) - 2; reg > maxreg {
-				maxreg = reg
-			}
-		case OP_VARARG:
-			if reg := opGetArgA(inst) + opGetArgB(inst) - 1; reg > maxreg {
-				maxreg = reg
-			}
-		case OP_SELF:
-			if reg := opGetArgA(inst) + 1; reg > maxreg {
-				maxreg = reg
-			}
-		case OP_LOADNIL:
-			if reg := opGetArgB(inst); reg > maxreg {
-				maxreg = reg
-			}
 		case OP_JMP: // jump to jump optimization
 			distance := 0
 			count := 0 // avoiding infinite loops
@@ -1838,10 +1882,6 @@ func patchCode(context *funcContext) { // {{{
 				context.Code.SetOpCode(pc, OP_NOP)
 			} else {
 				context.Code.SetSbx(pc, distance)
-			}
-		default:
-			if reg := opGetArgA(inst); reg > maxreg {
-				maxreg = reg
 			}
 		}
 
